@@ -19,12 +19,15 @@ from runner import enc, Infra
 from engines import warc_common as wc
 
 RULE = ('recorder: configurations (gzip, digests, max_size rollover incl. 0, appending second life, log record, extra warcinfo '
+        '~20% of the lives with ONE injected OSError (open / ENOSPC / short write + ENOSPC at raw write 1-3) inside the append of a session '
+        'record, ~7% killed (forked child os._exit) inside an append to a numbered / -meta file and followed by another life; '
         'fields incl. >1024 chars / short values with CR, LF, CRLF, TAB, VT, FF / non-ASCII, revisit table) x 1-8 interleaved HTTP/FTP recorder sessions; response '
         'header blocks with CRLF/LF/mixed line ends, odd spacing, folding, colon-less lines, duplicates, 0-40 fields, >4 KiB, '
         'bodies empty/binary/blank-line-led/chunked+trailer/4096-boundary; nvr/ser: field names from NAME_OVERRIDES in random '
         'case + custom names, values incl. empty, non-ASCII, surrogates; offset: byte strings over {CR, LF, other}. '
         'non-trivial = at least one session record written / non-empty input; distinct by canonical input')
-TRUSTED = ['SHA-1, base32 and zlib are opaque (hashlib / zlib recompute the expected values in the harness)',
+TRUSTED = ['fault lives: io.FileIO is subclassed for the archive handle (count / fail / die at the raw write); BufferedWriter and GzipFile are the real ones',
+           'SHA-1, base32 and zlib are opaque (hashlib / zlib recompute the expected values in the harness)',
            'the harness reader of gzip members and WARC records (warc_common.py) is the reference for "valid"',
            'uuid.uuid4 is replaced by a seeded generator during a run (stdlib entry point, not wpull code)']
 ASSUMPTIONS = ['field values handed to the recorder are free of CR/LF: URL (C10 norm_ascii), IP address, uuid, date, digests, '
